@@ -51,7 +51,8 @@ PROBES = ["eof_inside_block", "trailer_without_details_allow_empty", "trailer_wi
 PKGS = ["hello", "lib-x1", "g++-12", "a.b"]
 VERS = ["1.0-1", "2:1.2~rc1-3", "0.1", "1.0-1ubuntu1", "3.0+dfsg-2",
         "0:1.0-1", "1.00-1", "0.1-0"]      # the last three order-equal to earlier spellings
-DISTS = ["unstable", "experimental", "stable testing", "bookworm-security", "UNRELEASED"]
+DISTS = ["unstable", "experimental", "stable testing", "bookworm-security", "UNRELEASED",
+         "stable  testing", "a\tb"]        # separated by more than one blank
 URG = ["low", "medium", "HIGH", "emergency", "low (HIGH for users of x)"]
 AUTH = ["A B <a@b.org>", "Ünï Cöde <u@example.com>", "X <x@y>", "Mr. O'Neil, Jr. <o@n.ie>"]
 DATES = ["Mon, 01 Jan 2024 10:00:00 +0000", "Tue, 2 Feb 2021 09:08:07 -0500",
@@ -127,14 +128,14 @@ def generate(seed, run, tier):
             attr = rq.choice(["package", "version", "distributions", "urgency", "author", "date"])
             e.update(i=rq.randrange(4), attr=attr,
                      val=rq.choice({"package": PKGS, "version": VERS, "distributions": DISTS,
-                                    "urgency": URG[:4], "author": AUTH, "date": DATES}[attr]))
+                                    "urgency": URG[:4], "author": AUTH + [None], "date": DATES + [None]}[attr]))
             edits.append(e)
             continue
         if k == "block_set":
             attr = rq.choice(["package", "version", "distributions", "urgency", "author", "date"])
             e.update(i=rq.randrange(4), attr=attr,
                      val=rq.choice({"package": PKGS, "version": VERS, "distributions": DISTS,
-                                    "urgency": URG[:4], "author": AUTH, "date": DATES}[attr]))
+                                    "urgency": URG[:4], "author": AUTH + [None], "date": DATES + [None]}[attr]))
             edits.append(e)
             continue
         if k == "block_add_change":
@@ -158,7 +159,7 @@ def generate(seed, run, tier):
             e["val"] = rq.choice(CHANGES)
         else:
             e["val"] = rq.choice({"package": PKGS, "version": VERS, "distributions": DISTS,
-                                  "urgency": URG[:4], "author": AUTH, "date": DATES}[k])
+                                  "urgency": URG[:4], "author": AUTH + [None], "date": DATES + [None]}[k])
         edits.append(e)
     return {"world": {"lines": lines, "delivery": rs.choice(DELIVERY),
                       "allow_empty_author": rs.random() < 0.4, "none_input": False},
